@@ -175,6 +175,29 @@ def scn_assign(params):
                         out["violations"].append(("C18:told:packet-for-told-address-misrouted",
                                                   "a packet for %s (told to session %d) on %s was delivered to sessions %r" % (mc.tun_ip, mc.userid, params["tun"], got), wit))
                         break
+            # ... and so does a packet one session sends to another session's address, whatever operating system the sender's
+            # tun device is of (the 4 framing bytes in front of the packet are the sender's: Linux 00 00 08 00, the BSDs / macOS /
+            # Windows 00 00 00 00 or 00 00 00 02)
+            if len(mcs) >= 2 and not out["violations"]:
+                for _p in range(min(3, len(mcs))):
+                    a_, b_ = rng.sample(mcs, 2)
+                    fr = proto.make_frame(a_.tun_ip, b_.tun_ip, (0xC18F << 20) | (params["idx"] << 8) | _p, 60, "random", rng)
+                    fr = rng.choice([b"\x00\x00\x08\x00", b"\x00\x00\x00\x00", b"\x00\x00\x00\x02"]) + fr[4:]
+                    a_.send_frame(fr, wait_us=30000)
+                    k.run(k.now + 2000)
+                    got = []
+                    for m2 in mcs:
+                        m2.pump(60000, 20000)
+                        if any(x is not None and x[4:] == fr[4:] for _t, x in m2.delivered):
+                            got.append(m2.userid)
+                    wrote = any(ev[1] == "tun_write" and ev[2] == "srv" and bytes(ev[3]["data"])[4:] == fr[4:] for ev in k.log[-400:])
+                    out["stats"]["assign_client_to_client_checked"] = out["stats"].get("assign_client_to_client_checked", 0) + 1
+                    out["evaluations"] += 1
+                    if got != [b_.userid] or wrote:
+                        out["violations"].append(("C18:told:client-to-client-packet-misrouted",
+                                                  "a packet session %d sent to %s (told to session %d; framing bytes %s) on %s was delivered to sessions %r%s"
+                                                  % (a_.userid, b_.tun_ip, b_.userid, fr[:4].hex(), params["tun"], got, " and written to the server's tun" if wrote else ""), wit))
+                        break
             out["nontrivial"].append(repr(("told", params["tun"], len(mcs))))
         if not out["violations"] and mcs and params.get("busy"):
             # Lookup by tunnel address over time: for more than a minute every session either stays in use - by DNS pings, by
